@@ -72,6 +72,23 @@ def _same_array(x, y):
             and np.array_equal(np.asarray(x.data), np.asarray(y.data), equal_nan=True))
 
 
+def _bounds_as_arrays_reused(ctx, fn, name, arr, a, b, lc, rc, res, spec, **extra):
+    """Bounds handed over as 0-d arrays (``arr.time[k]``-like values, ``np.asarray(x)``) and used for two calls with
+    different closedness: the second call means what the same call with plain floats means."""
+    A = None if a is None else np.asarray(float(a))
+    B = None if b is None else np.asarray(float(b))
+    try:
+        fn(arr, "time", start=A, stop=B, left_closed=not lc, right_closed=not rc, **extra)
+        second = fn(arr, "time", start=A, stop=B, left_closed=lc, right_closed=rc, **extra)
+    except Exception as e:
+        ctx.violate_exc(f"{name}:raises", f"{name}:raises_with_array_bounds:{type(e).__name__}", e, spec=spec)
+        return
+    ctx.mon("array_bounds_reused")
+    if not _same_array(second, res):
+        ctx.violate("calling_convention", f"calling_convention:{name}:array_bounds_reused_across_calls", observed={"n": int(second.sizes["time"]), "bounds_now": [None if A is None else float(A), None if B is None else float(B)]},
+                    expected={"n": int(res.sizes["time"]), "bounds": [a, b]}, spec=spec)
+
+
 def _vals(res):
     d = np.asarray(res.data)
     return d if d.ndim == 1 else d[:, 0]
@@ -101,6 +118,8 @@ def judge_crop(ctx, start, step, n, a, b, lc, rc, with_attr, two_d, arr=None, hi
         calling.agree(ctx, "crop_dim", O.crop_dim, dict(arr=arr, dim="time", start=a, stop=b, right_closed=rc, left_closed=lc), spec, same=_same_array,
                       variants={"boolish_flags": {"left_closed": calling.boolish(ctx.rng, lc), "right_closed": calling.boolish(ctx.rng, rc)},
                                 "numlike_bounds": {"start": calling.numlike(ctx.rng, a), "stop": calling.numlike(ctx.rng, b)}})
+    if ctx.every(spec, 5) and history is None:
+        _bounds_as_arrays_reused(ctx, O.crop_dim, "crop_dim", arr, a, b, lc, rc, res, spec)
     ctx.mon("crop.oracle")
     lo = coords[0] if a is None else a
     hi = coords[-1] if b is None else b
@@ -177,6 +196,8 @@ def judge_extend(ctx, start, step, n, a, b, lc, rc, with_attr, two_d, arr=None, 
         calling.agree(ctx, "extend_dim", O.extend_dim, dict(arr=arr, dim="time", start=a, stop=b, fill_value=FILL, left_closed=lc, right_closed=rc), spec, same=_same_array,
                       variants={"boolish_flags": {"left_closed": calling.boolish(ctx.rng, lc), "right_closed": calling.boolish(ctx.rng, rc)},
                                 "numlike_bounds": {"start": calling.numlike(ctx.rng, a), "stop": calling.numlike(ctx.rng, b)}})
+    if ctx.every(spec, 5) and history is None:
+        _bounds_as_arrays_reused(ctx, O.extend_dim, "extend_dim", arr, a, b, lc, rc, res, spec, fill_value=FILL)
     ctx.mon("extend.oracle")
     gc = np.asarray(res.time.data)
     vals = _vals(res)
